@@ -125,20 +125,17 @@ pub proof fn lemma_match_live_facts(st: StoreV, sender: Addr, funds: Seq<Coin>, 
 }
 pub proof fn lemma_fee_step_fits(f: int, n: int, q: int)
     requires 0 <= n <= q, 1 <= q < LIMIT96(), 0 <= f < LIMIT96()
-    ensures fits(ddiv(of_int(n), of_int(q))), fits(dmul(ddiv(of_int(n), of_int(q)), of_int(f)))
+    ensures fits(ddiv(of_int(n), of_int(q))), fits(rmul(ddiv(of_int(n), of_int(q)), of_int(f)))
 {
-    broadcast use dec_lemmas, axiom_ddiv;
+    broadcast use dec_lemmas, axiom_ddiv, axiom_rmul;
     lemma_of_int_inj(n, q); lemma_of_int_inj(0, n);
     assert(of_int(q) > 0);
     let r = ddiv(of_int(n), of_int(q));
     assert(0 <= r <= D());
     assert(D() == of_int(1)) by { reveal(of_int); }
     axiom_fits_bounded(r, 1);
-    assert(dmul(r, of_int(f)) == pmul(r, f));
-    lemma_pmul_sign(r, f);
-    lemma_pmul_price_mono(r, D(), f);
-    assert(pmul(D(), f) == of_int(f)) by { reveal(pmul); reveal(of_int); assert(D() * f == f * D()) by(nonlinear_arith); }
-    axiom_fits_bounded(pmul(r, f), f);
+    assert(0 <= rmul(r, of_int(f)) <= of_int(f));
+    axiom_fits_bounded(rmul(r, of_int(f)), f);
 }
 
 pub open spec fn match_request_ok(st: StoreV, sender: Addr, funds: Seq<Coin>, msg: ExecuteMsg) -> bool {
